@@ -235,7 +235,7 @@ package fs
 //@   ensures stack: len(c.parentDirs) == old(len(c.parentDirs)) && (ref(c.parentDirs) == old(ref(c.parentDirs)) || fresh(c.parentDirs))
 //@   at call copier.removeTargetIfNeeded: lstat_only: cnt(Stat) == old(cnt(Stat)) && cnt(Lstat) == old(cnt(Lstat)) + 2 && include
 //@   at call copier.include: not_for_root: srcComponents != ""
-//@   at call copier.createParentDirs: selected: include
+//@   at call copier.createParentDirs: selected: include && (srcComponents == "" || (matchesIncludePattern && !matchesExcludePattern))
 //@   at call ensureEmptyFileTarget: selected_file: include && !fi.IsDir() && arg0 == target
 //@   at call copier.copyDirectory: dir: fi.IsDir() && arg7 == include
 //@   at call getLinkSource: regular: include && fi.Mode() & os.ModeType == 0
@@ -329,3 +329,7 @@ package fs
 //@   at call rootPath: src_in_root: arg0 == srcRoot
 //@   at call copier.prepareTargetDir: dst_in_root: arg3 == fs.RootPath(dstRoot, filepath.Clean(dst))
 //@   at call copier.copy: start: arg3 == "" && arg5 == false
+
+//@ func ResolveWildcards
+//@   property C15
+//@   trusted wildcard expansion walks the source with filepath.Walk; assumed not to modify the copier
